@@ -3,7 +3,9 @@ from ..common import Report
 from ..corpus import load, load_repo_tests, load_repo_examples
 from ..docgen import load_repo_docs
 from ..crossgen import load_cross
-from ..wrules import check_trait_forwarding, check_trait_predicates
+from ..traitgen import load_traitseq
+from ..common import CheckError
+from ..wrules import check_trait_forwarding, check_trait_predicates, trait_methods, last_seg
 
 
 def run(tier):
@@ -12,6 +14,8 @@ def run(tier):
     programs = 0
     loaded = [(cfg, load(rep, "pos", cfg)) for cfg in configs]
     loaded += [(cfg, load_cross(rep, cfg, tier)) for cfg in configs]
+    # script-enumerated traits: header shapes x selectors x method shapes (vlib/traitgen.py)
+    loaded.append(("plain", load_traitseq(rep, "plain", tier)))
     if tier == "thorough":
         loaded.append(("unimock_test", load_repo_tests(rep)))
         loaded += [("unimock_test", ld) for ld in load_repo_examples(rep)]
@@ -19,13 +23,21 @@ def run(tier):
     for cfg, ld in loaded:
         for exp in ld.crate.expansions:
             if exp.mode == "trait" and not (exp.attr and exp.attr.positional):
-                check_trait_forwarding(rep, ld.crate, exp, cfg)
+                v = check_trait_forwarding(rep, ld.crate, exp, cfg)
                 check_trait_predicates(rep, ld.crate, exp, cfg)
                 programs += 1
+                wants = getattr(ld.crate, "traitseq_wants", None)
+                if wants is not None and v is not None and getattr(v, "trait", None) is not None:
+                    i = int(last_seg(exp.module)[1:])
+                    have = [last_seg(m["path"]) for m in trait_methods(ld.crate, v.trait)]
+                    if have != wants[i]:
+                        raise CheckError("traitgen: generator expects methods %s for %s but rustc's item tree says %s" % (wants[i], exp.module, have))
+                    rep.count("trait_sequences_checked")
     rep.floor("generated_methods_checked", 40)
     rep.floor("impls_compared", 20)
+    rep.floor("trait_sequences_checked", 400)
     rep.coverage.update({"programs": programs,
                          "disagreements_checked": rep.counters.get("generated_methods_checked", 0),
-                         "explanation": "R-DELEG (adapter modes) + R-PRED over every trait-input expansion without a delegation target",
+                         "explanation": "R-DELEG (adapter modes) + R-PRED over every trait-input expansion without a delegation target. Corpora: hand-written witnesses, the mode x option cross product, and script-enumerated traits (vlib/traitgen.py): 9 header shapes (visibility, generics incl. const-before-type, supertraits, where clause, unsafe) x selectors default / ref / Borrow x 22 method shapes (named and elided borrows, typed receiver, wildcard and raw-identifier parameters, parameter named like the method, attributes, cfg'd-off, unsafe, where Self: Sized, dyn / fn-pointer arguments, generic / const-generic / impl-Trait / RPITIT / async methods), every method alone and every ordered pair adjacent; dyn-incompatible methods only with the default selector.",
                          "configs": configs})
     return rep.finish()
